@@ -24,6 +24,23 @@ func hx(b []byte) string { return "x" + hex.EncodeToString(b) }
 
 type kv struct{ k, v string }
 
+// pending records the inputs of the call about to be made: if the process dies of a fatal runtime
+// error (stack exhaustion, concurrent map write) the driver reports those inputs as the replay
+var pendingPath string
+
+func pending(kind string, fields ...kv) {
+	if pendingPath == "" {
+		return
+	}
+	var sb strings.Builder
+	sb.WriteString(kind + "\tid=crash")
+	for _, f := range fields {
+		sb.WriteString("\t" + f.k + "=" + f.v)
+	}
+	sb.WriteString("\n")
+	os.WriteFile(pendingPath, []byte(sb.String()), 0o644)
+}
+
 func emit(kind string, fields ...kv) {
 	caseNo++
 	fmt.Fprintf(out, "%s\tid=%d", kind, caseNo)
@@ -46,8 +63,19 @@ func chance(p float64) bool    { return rng.Float64() < p }
 // ---------------------------------------------------------------- documents
 
 // decoded member names; small alphabet so that collisions, escapes and pointer metacharacters occur
-var keyPool = []string{"a", "b", "c", "a/b", "m~n", "~1", "0", "1", "-1", "-", "é", " ", "<", "k\"q", "x y", "foo", "bar", "é\U0001F600", "&", "2", "~0", "z\\"}
-var numPool = []string{"0", "1", "2", "-1", "1.0", "1e400", "12345678901234567890123", "1E+2", "-0", "0.5", "3", "10", "2.50"}
+var keyPool = []string{"a", "b", "c", "a/b", "m~n", "~1", "0", "1", "-1", "-", "é", " ", "<", "k\"q", "x y", "foo", "bar", "é\U0001F600", "&", "2", "~0", "z\\", "", "\u2028", ">", ""}
+var numPool = []string{"0", "1", "2", "-1", "1.0", "1e400", "12345678901234567890123", "1E+2", "-0", "0.5", "3", "10", "2.50",
+	"9007199254740992", "9007199254740993", "1.0000000000000001", "1.0000000000000002", "0.1", "0.10000000000000001", "1e-400", "123456789012345678"}
+
+// numbers that differ only beyond float64 precision (or only in spelling): a comparison through
+// float64 cannot tell them apart
+var nearNum = map[string]string{
+	"9007199254740992": "9007199254740993", "9007199254740993": "9007199254740992",
+	"1.0000000000000001": "1.0000000000000002", "1.0000000000000002": "1.0000000000000001",
+	"0.1": "0.10000000000000001", "0.10000000000000001": "0.1",
+	"12345678901234567890123": "12345678901234567890124", "1e400": "1e401", "1e-400": "1e-401",
+	"123456789012345678": "123456789012345679", "1": "1.0", "1.0": "1", "2.50": "2.5", "1E+2": "100", "-0": "0", "0": "-0",
+}
 var strPool = []string{"", "x", "hello", "<b>&", "  ", "a/b", "é", "\U0001F600", "q\"q", "back\\slash", "\x01\x1f", "tab\t", "é", "nul\x00"}
 
 type genOpts struct {
@@ -403,8 +431,28 @@ func envInt(name string, dflt int64) int64 {
 
 var alphabet = []byte("{}[]:,\"\\-+.01eEtrufalsn \x00\x1f\x7f\x80\xff")
 
+// bytes that look like blanks but are not JSON whitespace
+var pseudoSpace = []string{"\v", "\f", "\x00", "\x1c", "\x1f", "\x85", "\xa0", "\xc2\xa0", "\xe2\x80\xa8", "\b"}
+
 func mutate(s []byte) []byte {
 	b := append([]byte{}, s...)
+	if chance(0.15) {
+		// a pseudo-space next to a structural character (between tokens, not inside a string)
+		var spots []int
+		for i, c := range b {
+			if c == ',' || c == ':' || c == '[' || c == '{' || c == ']' || c == '}' {
+				spots = append(spots, i)
+			}
+		}
+		ps := []byte(pseudoSpace[rng.Intn(len(pseudoSpace))])
+		p := len(b)
+		if len(spots) > 0 && chance(0.8) {
+			p = spots[rng.Intn(len(spots))] + rng.Intn(2)
+		} else if chance(0.5) {
+			p = 0
+		}
+		return append(b[:p:p], append(ps, b[p:]...)...)
+	}
 	n := 1 + rng.Intn(3)
 	for i := 0; i < n; i++ {
 		switch rng.Intn(6) {
@@ -425,7 +473,7 @@ func mutate(s []byte) []byte {
 				b = append(b[:p], b[p+1:]...)
 			}
 		case 4: // trailing data
-			b = append(b, []byte(pick("x", " 1", "}", "]", ",", "\x00", "{}"))...)
+			b = append(b, []byte(pick("x", " 1", "}", "]", ",", "\x00", "{}", "\v", "\f", "\xc2\xa0", "\x1c"))...)
 		case 5: // swap two bytes
 			if len(b) > 1 {
 				i, j := rng.Intn(len(b)), rng.Intn(len(b))
